@@ -257,7 +257,7 @@ pub fn sim_check(id: &str) -> Option<SimCheck> {
         },
         "C17" => SimCheck {
             id: "C17",
-            prof: Profile { gen: GenOpts { regen_pct: 100, alt_manifest_pct: 30, subgen_pct: 35, ..GenOpts::default() }, edits: [2, 3, 1, 0, 0, 0, 1, 0, 1, 4, 1, 3, 3, 2], fault_pct: 25, kill_pct: 0, unknown_target_pct: 0, ..base },
+            prof: Profile { gen: GenOpts { regen_pct: 100, alt_manifest_pct: 30, subgen_pct: 35, defaults_pct: 30, ..GenOpts::default() }, edits: [2, 3, 1, 0, 0, 0, 1, 0, 1, 4, 1, 3, 3, 2], fault_pct: 25, kill_pct: 0, unknown_target_pct: 0, ..base },
             quick: 120_000,
             thorough: 1_500_000,
             rule: "self-regenerating manifests (also under -f): manifest edits are queued for the generator step, which rewrites the manifest when it runs; oracle: before the reload only the manifest's closure runs, after it every started step has the outputs/command of the new text and dirtiness follows the model under the new text, generator failure => nothing else runs, clean manifest => no reload. Non-trivial: an invocation that reloaded the manifest",
